@@ -173,8 +173,15 @@ Fixpoint remove_first_phasing (h : list hline) : list hline :=
   | [] => []
   | (k, i, t) :: r => if k =? 0 then r else (k, i, t) :: remove_first_phasing r
   end.
-Definition unphase_header (h : list hline) : list hline :=
-  filter (fun l => match l with (k, i, _) => negb ((k =? 1) && is_phase_key i) end) (remove_first_phasing h).
+(* a line survives the tag filter unless it is the FORMAT definition of HP, PS or PQ *)
+Definition hline_keep (l : hline) : bool := match l with (k, i, _) => negb ((k =? 1) && is_phase_key i) end.
+Definition unphase_header (h : list hline) : list hline := filter hline_keep (remove_first_phasing h).
+
+(* header-level specification side: no FORMAT definition of HP / PS / PQ is left; `##phasing` lines are header
+   metadata, compared separately *)
+Definition is_phasing_line (l : hline) : bool := match l with (k, _, _) => k =? 0 end.
+Definition header_clean (h : list hline) : bool := forallb hline_keep h.
+Definition drop_phasing (h : list hline) : list hline := filter (fun l => negb (is_phasing_line l)) h.
 
 (* -------------------------------------------------------------------- abstract phase writer *)
 (* What a phasing writer may do to a record (C04 models the real one): permute the alleles of a fully
@@ -321,14 +328,16 @@ Definition rec_phase_relb (r r' : vrec) : bool :=
 (* ---- what the harness evaluates.
    A case of the main stream: (input header, input records, (output header, (output records, error)),
    (records, error) of the second application). *)
-Definition ucase := (list hline * list vrec * (list hline * (list vrec * option err)) * (list vrec * option err))%type.
+Definition ucase := (list hline * list vrec * (list hline * (list vrec * option err))
+                     * (list hline * (list vrec * option err)))%type.
 Definition uc_hin (c : ucase) := fst (fst (fst c)).
 Definition uc_in (c : ucase) := snd (fst (fst c)).
 Definition uc_hout (c : ucase) := fst (snd (fst c)).
 Definition uc_out (c : ucase) := fst (snd (snd (fst c))).
 Definition uc_err (c : ucase) := snd (snd (snd (fst c))).
-Definition uc_out2 (c : ucase) := fst (snd c).
-Definition uc_err2 (c : ucase) := snd (snd c).
+Definition uc_hout2 (c : ucase) := fst (snd c).
+Definition uc_out2 (c : ucase) := fst (snd (snd c)).
+Definition uc_err2 (c : ucase) := snd (snd (snd c)).
 
 (* L1: the property clauses on (input, output) *)
 Definition l1_total (c : ucase) : bool :=
@@ -338,6 +347,13 @@ Definition l1_frames (c : ucase) : bool :=
   list_eqb rec_frame (firstn (length (uc_out c)) (uc_in c)) (uc_out c).
 Definition l1_idem (c : ucase) : bool :=
   recs_eqb (uc_out2 c) (uc_out c) && match uc_err2 c with None => true | Some _ => false end.
+(* header level: no HP / PS / PQ definition is left in the output header, and the second application changes
+   nothing in the header apart from `##phasing` metadata lines *)
+Definition l1_header_clean (c : ucase) : bool := header_clean (uc_hout c).
+Definition l1_header_idem (c : ucase) : bool :=
+  list_eqb hline_eqb (drop_phasing (uc_hout2 c)) (drop_phasing (uc_hout c)).
+(* observation (not a verdict): is the whole header, `##phasing` lines included, a fixed point? *)
+Definition obs_header_idem_strict (c : ucase) : bool := list_eqb hline_eqb (uc_hout2 c) (uc_hout c).
 (* L2: implementation = model of the current code (records written, exception class, header) *)
 Definition l2_records (c : ucase) : bool := fres_eqb (unphase_file cur_rule (uc_in c)) (uc_out c, uc_err c).
 Definition l2_header (c : ucase) : bool := list_eqb hline_eqb (unphase_header (uc_hin c)) (uc_hout c).
@@ -370,3 +386,8 @@ Fixpoint hrun_cur (ops : list hop) (r : vrec) : res vrec :=
 
 (* L2 against the other variant of the switch: implementation = model with the repaired rule *)
 Definition l2_records_fixed (c : ucase) : bool := fres_eqb (unphase_file fixed_rule (uc_in c)) (uc_out c, uc_err c).
+
+(* malformed stream (HP / PS / PQ used in records but not declared in the header): exception class only *)
+Definition mcase := (list vrec * option err)%type.
+Definition l2_mal_cur (c : mcase) : bool := opt_eqb err_eqb (snd (unphase_file cur_rule (fst c))) (snd c).
+Definition l2_mal_fixed (c : mcase) : bool := opt_eqb err_eqb (snd (unphase_file fixed_rule (fst c))) (snd c).
